@@ -96,3 +96,9 @@ claim("C07", "other",
       "Tables extracted from the MIR of the FEN reader and the builders compared with the FEN standard and with each other: the 12 piece letters, one (kind, colour) <-> bitboard bijection across setters / add / remove / count / lookup / build / recompute and both hard-coded start positions, the order and defaults of the six FEN fields, the castling and side letters, the en-passant letter decoding, the synthetic history record (rights, clock, double-push flag on the en-passant file, which is what make/unmake read back), and a build that copies every field and computes the key last. These decide every table a FEN family would have to probe.",
       "the rank/file arithmetic of the placement mask and digit skipping are value-level and not decided.",
       "static analysis: decision-table extraction from rustc MIR vs FEN-standard oracle; sibling-table agreement", "DESIGN.md section 3 C07")
+
+
+claim("C08", "other",
+      "Structural clauses of `position`: a scratch board built from the start position or from_fen and never from the session board; a single commit `self.board = scratch` after the move loop, on every Ok path and no Err path, with a rejected move leading to an Err that bypasses it; exact-equality lookup of each token among the legal moves and the matched move played on the scratch board for all tokens in order; {start}{dest}+q/r/b/n notation; FEN = tokens 1..7, moves after the `moves` keyword; error propagation, ucinewgame, and go searching the session board. Holds for every move list and command order because it holds for every path.",
+      "the legal-move list (C01) and the move application (C03) are decided elsewhere / not here.",
+      "static analysis: who-may-write + dominance + symbolic slices + token-slice constraints over rustc MIR", "DESIGN.md section 3 C08")
